@@ -305,6 +305,14 @@ fn run_client_loop(stream: TcpStream, state: &Arc<SharedState>) -> Result<(), Tc
             Err(TcpError::Io(ref e)) if e.kind() == std::io::ErrorKind::UnexpectedEof => break,
             Err(e) => {
                 eprintln!("Request error: {}", e);
+                // A frame that is not a valid request is answered with a protocol error
+                // before the connection is dropped.
+                if !matches!(e, TcpError::Io(_)) {
+                    let _ = send_response(
+                        &mut writer,
+                        &Response::Error(format!("Protocol error: {}", e)),
+                    );
+                }
                 break;
             }
         };
